@@ -1,5 +1,5 @@
 (* C03 (b) -- state that survives an evaluation: the domain cache of every variable (warm vs cold) and the
-   [concluded_before] memory of the conclusion selector (conclusion_selector.py:32, never reset).
+   [concluded_before] memory of the conclusion selector (conclusion_selector.py; forgotten at the start of every top-level evaluation).
    [run : qstate -> query -> rows * qstate] is one whole evaluation (iterator consumed to the end); evaluations of a
    history are threaded through the state.  Each [for v in variable._domain_] of a whole evaluation is a fresh
    HashedIterable handle run to exhaustion ([iter_full], tied to DomainCache.rexhaust by [iter_full_exhaust]). *)
@@ -50,7 +50,18 @@ Fixpoint eval_conds (A : attrs) (cs : list atom) (b : bindings) (s : qstate) : l
   | a :: r => let '(bs, s1) := eval_atom A a b s in loop bs (fun b' s' => eval_conds A r b' s') s1
   end.
 
+(* current code (krrood a3cd335): ResultQuantifier.evaluate() makes every conclusion selector of the query forget its
+   coverage memory when the evaluation starts (first advance of the generator); the memory then lives for the evaluation *)
 Definition run (A : attrs) (s : qstate) (q : query) : list (list Z) * qstate :=
+  let '(bs, s1) := eval_conds A (q_conds q) [] s in
+  match q_rule q with
+  | None => loop bs (fun b s => bind_all (q_sel q) b s (fun b' s' => ([row (q_sel q) b'], s'))) s1
+  | Some exc => let '(rows, seen) := conclude A exc (q_sel q) bs [] in
+                (rows, {| doms := doms s1; concl := seen |})
+  end.
+
+(* the code before a3cd335: the memory was never reset (kept for the regression Example only) *)
+Definition run_old (A : attrs) (s : qstate) (q : query) : list (list Z) * qstate :=
   let '(bs, s1) := eval_conds A (q_conds q) [] s in
   match q_rule q with
   | None => loop bs (fun b s => bind_all (q_sel q) b s (fun b' s' => ([row (q_sel q) b'], s'))) s1
@@ -58,13 +69,16 @@ Definition run (A : attrs) (s : qstate) (q : query) : list (list Z) * qstate :=
                 (rows, {| doms := doms s1; concl := seen |})
   end.
 
-(* a history of whole evaluations over shared variables; a rule query owns its selector, so each query of the
-   history that is a *different* query object must be given its own [concl]; here the history re-evaluates query
-   objects over the same variables and (for rule queries) the same selector *)
+(* a history of whole evaluations of query objects over the same variables *)
 Fixpoint hist (A : attrs) (s : qstate) (qs : list query) : list (list (list Z)) :=
   match qs with
   | [] => []
   | q :: r => let '(rows, s') := run A s q in rows :: hist A s' r
+  end.
+Fixpoint hist_old (A : attrs) (s : qstate) (qs : list query) : list (list (list Z)) :=
+  match qs with
+  | [] => []
+  | q :: r => let '(rows, s') := run_old A s q in rows :: hist_old A s' r
   end.
 
 Definition cold (W : world) : qstate := {| doms := map (fun w => {| cache := []; src := w |}) W; concl := [] |}.
